@@ -357,6 +357,61 @@ def run_load(expr, mi, name):
     return not bad, obs
 
 
+# ---- sub-family: chains of RREL references, each navigating over the reference of the previous one; all statement orders ----
+CHAIN_GRAMMAR = """
+Model: (cs+=C | bs+=B | xs+=X | ys+=Y | zs+=Z)*;
+C: 'c' name=ID;
+B: 'b' name=ID '->' ref=[C:ID|cs];
+X: 'x' name=ID '->' t=[C:FQN|%s];
+Y: 'y' name=ID '->' t=[C:FQN|%s];
+Z: 'z' name=ID '->' t=[C:FQN|ys.t, xs.t];
+FQN: ID('.'ID)*;
+"""
+CHAIN_EXPRS = [("bs.ref", "xs.t"), ("bs.~ref", "xs.~t"), ("+p:bs.ref", "+p:xs.t,cs"), ("bs.ref,cs", "zs.t,xs.t")]
+CHAIN_STMTS = {"bs.ref": ["c c1", "b b1 -> c1", "x x1 -> b1.c1", "y y1 -> x1.c1", "z z1 -> y1.c1"],
+               "bs.~ref": ["c c1", "b b1 -> c1", "x x1 -> b1", "y y1 -> x1", "z z1 -> y1.c1"]}
+
+
+def run_chain(ei, order):
+    from textx import metamodel_from_str
+    from textx.exceptions import TextXSemanticError
+
+    ex, ey = CHAIN_EXPRS[ei]
+    mm = metamodel_from_str(CHAIN_GRAMMAR % (ex, ey))
+    stmts = CHAIN_STMTS["bs.~ref" if "~" in ex else "bs.ref"]
+    text = "\n".join(stmts[i] for i in order)
+    obs = {"rrel_of_x": ex, "rrel_of_y": ey, "model": text}
+    try:
+        m = mm.model_from_str(text)
+    except TextXSemanticError as e:
+        obs["observed"] = "TextXSemanticError: " + str(e.message)[:100]
+        return False, obs
+    c1 = m.cs[0]
+    def unwrap(v):
+        # '+p:' references hold a proxy; a path that went through another '+p:' reference ends in that reference's proxy
+        while type(v).__name__ == "ReferenceProxy":
+            v = object.__getattribute__(v, "_tx_path")[-1]
+        return v
+    got = {"x": unwrap(m.xs[0].t), "y": unwrap(m.ys[0].t), "z": unwrap(m.zs[0].t), "b": m.bs[0].ref}
+    obs["observed"] = {k: getattr(v, "name", None) for k, v in got.items()}
+    return all(v is c1 for v in got.values()), obs
+
+
+def work_chain(arg):
+    u = Unit()
+    for ei, order in arg:
+        with watchdog(20):
+            try:
+                ok, obs = run_chain(ei, order)
+            except Exception as e:
+                ok, obs = False, {"observed": "%s: %s" % (type(e).__name__, e)}
+        u.case(["chain", ei, list(order)], nontrivial=list(order) != sorted(order), sample=obs if order[0] > 2 else None)
+        u.count("reference-chain family")
+        if not ok:
+            u.fail(["chain", ei, list(order)], {"chain": [ei, list(order)]}, sig="chain " + str(obs.get("observed"))[:40], what=str(obs)[:500])
+    return u
+
+
 def work_load(arg):
     u = Unit()
     for expr, mi, name in arg:
@@ -404,6 +459,8 @@ def run(ctx):
     ctx.pmap(work, [exprs[i:i + B] for i in range(0, len(exprs), B)])
     lc = [(e, mi, n) for e in LOAD_EXPRS for mi in range(len(LOAD_MODELS)) for n in LOAD_NAMES]
     ctx.pmap(work_load, [lc[i:i + 10] for i in range(0, len(lc), 10)])
+    ch = [(ei, order) for ei in range(len(CHAIN_EXPRS)) for order in itertools.permutations(range(5))]
+    ctx.pmap(work_chain, [ch[i:i + 40] for i in range(0, len(ch), 40)])
     _, models = world()
     return {
         "rule": "case = (RREL expression, model, start object, dotted name, target type); expressions = all texts with <= %s atoms from the alphabet; "
@@ -419,6 +476,8 @@ def replay(p):
 
     if "load" in p:
         return run_load(*p["load"])
+    if "chain" in p:
+        return run_chain(p["chain"][0], tuple(p["chain"][1]))
 
     mm, models = world()
     tree = parse(p["expr"])
